@@ -54,6 +54,55 @@ def h_literal(post: bool, first: bool, lit: int, sel: int, tail: int) -> bool:
     return reach(L.untraced(L.run_literal, post, first, lit, sel, tail))
 
 
+def _run_protected(n, binds, reads, variant, asserts, field) -> bool:
+    """``get_assertion_protected_variables`` (what the minimizers consult before they drop a statement) on a
+    selector-built test case: exactly the asserted variables plus everything they are computed from."""
+    import pynguin.assertion.assertion as ass
+    import pynguin.ga.postprocess as pp
+    from harness import _C15_lib as L15
+    from harness import _C15_struct as S15
+
+    t, spec = S15._mk(n, binds, reads, variant, asserts)  # noqa: SLF001
+    if field:
+        # the observer's watch list also produces assertions on a field of a variable (`var_0.count`)
+        for st in t.statements():
+            if st.assertions:
+                st.assertions[0] = ass.ObjectAssertion(f"{st.bound_variable}.count", 3)
+    want: set = set()
+    todo = [i for i in range(n) if spec[i][0] is not None and asserts[i]]
+    while todo:
+        i = todo.pop()
+        if spec[i][0] in want:
+            continue
+        want.add(spec[i][0])
+        todo.extend(spec[i][1])
+    try:
+        got = pp.get_assertion_protected_variables(t)
+    except Exception as e:  # noqa: BLE001
+        return L.fail(f"get_assertion_protected_variables raised {type(e).__name__}: {e} on {t.to_code()!r}")
+    missing = want - set(got)
+    if missing:
+        return L.fail(f"get_assertion_protected_variables({t.to_code()!r}, assertions on statements "
+                      f"{[i for i in range(n) if asserts[i] and spec[i][0]]}{' (field sources)' if field else ''}) = {sorted(got)}: "
+                      f"{sorted(missing)} are needed to compute an asserted variable but not protected")
+    return True
+
+
+def h_protected(nmax: int, n: int, variant: int, field: bool, b0: bool, b1: bool, b2: bool, b3: bool, r10: bool, r20: bool, r21: bool,
+                r30: bool, r31: bool, r32: bool, a0: bool, a1: bool, a2: bool, a3: bool) -> bool:
+    """
+    pre: 1 <= n <= nmax <= 4 and 0 <= variant <= 2
+    pre: (n >= 1 or not b0) and (n >= 2 or not b1) and (n >= 3 or not b2) and (n >= 4 or not b3)
+    pre: (b0 or not (r10 or r20 or r30 or a0)) and (b1 or not (r21 or r31 or a1)) and (b2 or not (r32 or a2)) and (b3 or not a3)
+    pre: (n >= 2 or not r10) and (n >= 3 or not (r20 or r21)) and (n >= 4 or not (r30 or r31 or r32))
+    post: _
+    """
+    # structure selectors as in C15 layer (i): b_i statement i binds, r_ij statement i reads statement j, a_i it carries an
+    # assertion on its own variable (field: on a field of it)
+    return reach(L.untraced(_run_protected, n, (b0, b1, b2, b3), ((), (r10,), (r20, r21), (r30, r31, r32)), variant,
+                            (a0, a1, a2, a3), field))
+
+
 META = {
     "level": "model_checking",
     "claim": "Solver-enumerated structures on the real code: for every test case of <= 3 statements over the stated structure selectors "
@@ -102,4 +151,5 @@ def obligations(tier: str):
         Chx("keep", h_keep, timeout=T, split={"n": [1, 2, 3], "shape": [0, 1]}),
         Chx("exc", h_exc, timeout=T),
         Chx("literal", h_literal, timeout=T),
+        Chx("protected", h_protected, timeout=T, fix={"nmax": 4, "variant": 0}, split={"n": [3, 4], "field": [False, True]}),
     ]
